@@ -524,6 +524,9 @@ class Parser:
             return True
         if self._current_token.token_type.is_executable():
             return True
+        if self._current_token.is_mark('['):
+            # A bracketed routine call as the one command of the body.
+            return True
         return self._current_token.is_any(TokenTypes.BEGIN, TokenTypes.WITH)
 
     def _macro_definition(self, name):
@@ -535,6 +538,10 @@ class Parser:
         """
         if self._context.has_symbol_typed(name, SymbolType.MACRO):
             return self.trigger_error('Already defined: "{}"'.format(name))
+        # Braces are optional round a single constant, here as elsewhere.
+        braces = self._current_token.is_mark('{')
+        if braces:
+            self.next_token()
         uminus = self._current_token.is_mark('-')
         if uminus:
             self.next_token()
@@ -548,6 +555,11 @@ class Parser:
             if inner_macro.undefined:
                 return self.token_error('Macro needs constant, got "{}"')
             value = inner_macro.value
+        if braces:
+            self.next_token()
+            if not self._current_token.is_mark('}'):
+                return self.token_error(
+                    'Macro needs a single constant, got "{}"')
         self._context.add_global(name, SymbolType.MACRO, value)
         self._add_instruction(OpCode.CONSTANT, name, value)
         return self.next_token()
